@@ -92,6 +92,15 @@ def corr_package(ctx, root, data, tag):
     real_stored = [i.compress_type == zipfile.ZIP_STORED for i in z.infolist()]
     ctx.corr('STORED flags ' + tag, None, [e[1] for e in entries], real_stored)
     ctx.corr('manifest rows ' + tag, None, man, [(a, b or '') for a, b in pk['manifest']])
+    # the premises of C03_no_member_twice on the model image of this document: where they hold the theorem says the model names no
+    # member twice, and the member order above says the archive has the model's names - an archive with a name twice there would be
+    # a contradiction between theorem, model and code, and is reported as one
+    prem = [x == '1' for x in ctx.get_driver().call('pkg_premises', model_topdoc(root))]
+    ctx.bump('no-member-twice premises %s: pairs_distinct=%d shape_ok=%d extras_apart=%d' % (tag, prem[0], prem[1], prem[2]))
+    twice = sorted(set(n for n in pk['order'] if pk['order'].count(n) > 1))
+    if all(prem): ctx.corr('premises of C03_no_member_twice hold, so no member name twice ' + tag, None, [], twice)
+    elif not twice and [e[0] for e in entries] == pk['order']:
+        ctx.bump('no-member-twice premises fail yet no name is written twice ' + tag)        # allowed: the premises are sufficient, not necessary
     infos = z.infolist()
     for e, info in zip(entries, infos):
         if isinstance(e[2], list) and e[2][0] == 'B' and e[0] != 'mimetype':
